@@ -161,13 +161,15 @@ func (mt *multiSwarm) LocalAddrs() (ret []Addr) {
 
 func (mt *multiSwarm) Close() error {
 	var err error
+	// Close the hub first: a receive loop may be inside a transport's callback waiting to hand a
+	// message to the hub, and some transports wait for their callbacks to return before Close returns.
+	mt.tells.CloseWithError(p2p.ErrClosed)
 	for _, t := range mt.swarms {
 		if err2 := t.Close(); err2 != nil {
 			err = err2
 			logctx.Errorln(mt.ctx, "closing swarms", err)
 		}
 	}
-	mt.tells.CloseWithError(p2p.ErrClosed)
 	return err
 }
 
